@@ -546,16 +546,29 @@ def expected_verdict(test):
 
 def blame(t):
     """(value type, layout) named in the signature of a wrong verdict. A test with one class of
-    expectation names it; in a mixed test the first class in a fixed order is named (labelling
-    only — single-class tests of every class run in the grid of every tier)."""
-    classes = []
+    expectation names it; for a mixed test each expectation is run alone through run_tests (same
+    situation, period and margins) and the first one whose own verdict is wrong is named."""
+    classes = list(dict.fromkeys((_slot_type(x["var"]), x["layout"]) for x in t["expectations"]))
+    if len(classes) == 1:
+        return classes[0]
     for x in t["expectations"]:
-        lay = "instance" if x["inst"] is not None else ("entity" if t["layout"] == "entity" and len(t["expectations"]) == 1 else
-                                                        ("variable" if t["layout"] == "variable" else t["layout"]))
-        classes.append((_slot_type(x["var"]), lay))
-    order = ["enum", "str", "strn", "date", "bool", "int", "float"]
-    classes.sort(key=lambda c: (order.index(c[0]) if c[0] in order else 9, c[1] != "instance"))
-    return classes[0]
+        node = x["expected"] if x["period"] is None else {x["period"]: x["expected"]}
+        ent = A.VARS[x["var"]][0]
+        if x["layout"] == "variable":
+            output = {x["var"]: node}
+        elif x["layout"] == "entity":
+            output = {ent: {x["var"]: node}}
+        else:
+            output = {x["inst"][0]: {x["inst"][1]: {x["var"]: node}}}
+        sub = {k: t[k] for k in ("name", "input", "period", "engine", "absolute_error_margin", "relative_error_margin") if k in t}
+        sub.update(output=output, layout=x["layout"], expectations=[x])
+        want = expected_verdict(sub)
+        if want is None:
+            continue
+        _, outs = A.run_yaml_tests(A.system(), yaml_of_tests([sub]), "blame")
+        if len(outs) == 1 and (outs[0]["outcome"] == "passed") != want:
+            return (_slot_type(x["var"]), x["layout"])
+    return ("mixed", "mixed")
 
 
 def oracle_yaml(tests, out: str):
@@ -942,24 +955,24 @@ def expectations_of(output, period, margins, engine_ids):
         return m
     out = []
 
-    def leafs(var, per, inst, v):
+    def leafs(var, per, inst, v, lay):
         if isinstance(v, dict):
             for p, w in v.items():
-                leafs(var, str(p), inst, w)
+                leafs(var, str(p), inst, w, lay)
         else:
             out.append({"var": var, "period": per, "inst": inst, "expected_tok": A.j_tokens(v, f32=False),
-                        "abs": margin(am, var), "rel": margin(rm, var)})
+                        "abs": margin(am, var), "rel": margin(rm, var), "layout": lay})
     for key, v in output.items():
         if A.vtype(key):
-            leafs(key, period, None, v)
+            leafs(key, period, None, v, "variable")
         elif key in A.PLURAL and isinstance(v, dict):
             for var, w in v.items():
-                leafs(var, period, None, w)
+                leafs(var, period, None, w, "entity")
         elif key in A.PLURAL.values() and isinstance(v, dict):
             for iid, vals in v.items():
                 if isinstance(vals, dict):
                     for var, w in vals.items():
-                        leafs(var, period, [key, iid], w)
+                        leafs(var, period, [key, iid], w, "instance")
     return out
 
 
@@ -1227,7 +1240,7 @@ def malformed_lines():
 def generate(rng: random.Random, tier: str):
     A.system()
     quick = tier == "quick"
-    n_calc, n_trace, n_seq, n_yaml_files, n_odd, n_sys = (170, 60, 40, 40, 30, 4) if quick else (3000, 900, 400, 700, 300, 30)
+    n_calc, n_trace, n_seq, n_yaml_files, n_odd, n_sys = (450, 150, 90, 110, 60, 8) if quick else (3000, 900, 400, 700, 300, 30)
     out = []
     for k in range(n_calc):
         doc = gen_doc(rng)
